@@ -43,22 +43,59 @@ def _lemma_not_wedged():
                        pre + frame + exc_post + [outer, is_exception(x)], goal)]
 
 
+def scenario_layer(pid, quick_s=8, thorough_s=120):
+    """Bounded stand-in / cross-check (DESIGN 2.7): random small machines (<= 3 states, <= 5 transitions,
+    <= 2 events, guards/validators/actions/faults/nested sends, rtc x allow x sync/async, histories <= 4)
+    run on the real library and compared with the reference interpreter.  Never counted as proved."""
+    import json as _json
+
+    def run(tier, seed, run_native):
+        budget = thorough_s if tier == "thorough" else quick_s
+        rc, out, err = run_native(["-m", "runtime.scenario", pid, str(budget), str(seed)], timeout=budget * 3 + 60)
+        try:
+            res = _json.loads(out.strip().splitlines()[-1])
+        except Exception:
+            return {"what": "scenario layer", "error": (err or out)[-400:], "violations": []}
+        r = {"what": "scenario layer: real library vs reference interpreter on random small machines (bounded, not a proof)",
+             "bound": "<=3 states, <=5 transitions, <=2 events, history <=4, one fault, <=2 nested sends per callback",
+             "evaluations": res["evaluations"], "distinct": res["distinct"], "skipped_non_terminating": res.get("skipped_runaway", 0),
+             "seconds": res["seconds"], "violations": []}
+        if res.get("found"):
+            r["violations"].append({"name": f"bounded:{pid}:scenario-disagrees-with-reference", "replay": res["replay"],
+                                    "difference": res["difference"]})
+        return r
+    return run
+
+
+def scenario_search(pid, budget_s=25):
+    def run(failing, tier, seed, run_native):
+        import json as _json
+        rc, out, err = run_native(["-m", "runtime.scenario", pid, str(budget_s), str(seed + 7)], timeout=budget_s * 3 + 60)
+        try:
+            res = _json.loads(out.strip().splitlines()[-1])
+        except Exception:
+            return None
+        return res.get("replay")
+    return run
+
+
 def _scans_engine():
     from . import scans
     return scans.scan_state_field_writers() + scans.scan_queue_mutators() + scans.scan_lock_operations()
 
 
 PROPERTIES = {
-    "C01": {"scans": [_scans_engine]},
-    "C02": {"lemmas": [_lemmas_cnt], "scans": [_scans_engine]},
-    "C03": {"scans": [_scans_engine]},
-    "C04": {"lemmas": [_lemma_not_wedged], "scans": [_scans_engine]},
-    "C14": {},
+    "C01": {"scans": [_scans_engine], "bounded": [scenario_layer("C01")], "search": scenario_search("C01")},
+    "C02": {"lemmas": [_lemmas_cnt], "scans": [_scans_engine], "bounded": [scenario_layer("C02")], "search": scenario_search("C02")},
+    "C03": {"scans": [_scans_engine], "bounded": [scenario_layer("C03")], "search": scenario_search("C03")},
+    "C04": {"lemmas": [_lemma_not_wedged], "scans": [_scans_engine], "bounded": [scenario_layer("C04")], "search": scenario_search("C04")},
+    "C14": {"bounded": [scenario_layer("C14")], "search": scenario_search("C14")},
     "C05": {"assumptions": [
         "asyncio.gather / as_completed / run_async_from_sync: assumed contracts (pyvc/models.py); the order of effects inside one callback group is left unconstrained, as documented",
-        "relational reading: sync and async functions are verified against the SAME contract classes"]},
-    "C10": {"scans": [_scans_engine]},
-    "C11": {},
+        "relational reading: sync and async functions are verified against the SAME contract classes"],
+        "bounded": [scenario_layer("C05")], "search": scenario_search("C05")},
+    "C10": {"scans": [_scans_engine], "bounded": [scenario_layer("C10")], "search": scenario_search("C10")},
+    "C11": {"bounded": [scenario_layer("C11")], "search": scenario_search("C11")},
     "C13": {},
     "C07": {"lemmas": [lambda: __import__("contracts.signature", fromlist=["x"]).scan_signature_cache_key()],
             "assumptions": ["inspect.Signature validity (kind order, distinct names) as a precondition of bind_expected",
